@@ -85,11 +85,14 @@ def make_modules(I):
 
     tns = _TypingNS()
     tns["TYPE_CHECKING"] = False
+    tns["Iterator"] = IteratorMarker
     tns["cast"] = Builtin("cast", lambda t, v: v)
     tns["overload"] = Builtin("overload", lambda f: f)
     tns["TypeVar"] = Builtin("TypeVar", lambda *a, **k: TypingDummy("TypeVar"))
     mods["typing"] = ModuleNS("typing", tns)
     mods["typing_extensions"] = ModuleNS("typing_extensions", tns)
+    mods["numpy.typing"] = ModuleNS("numpy.typing", tns)
+    mods["pathlib"] = ModuleNS("pathlib", {"Path": TypingDummy("Path")})
 
     # abc
     import abc as _abc
@@ -102,7 +105,7 @@ def make_modules(I):
                                    "ABCMeta": _abc.ABCMeta})
 
     # numbers
-    mods["numbers"] = ModuleNS("numbers", {"Number": NumberMarker})
+    mods["numbers"] = ModuleNS("numbers", {"Number": NumberMarker, "Real": NumberMarker})
     mods["collections.abc"] = ModuleNS("collections.abc", {"Iterator": IteratorMarker})
 
     # warnings
@@ -126,8 +129,19 @@ def make_modules(I):
                 g.attrs["__name__"] = f.name
             return g
         return Builtin("wraps-deco", deco)
+    def reduce(f, it, *init):
+        items = list(I.iterate(it))
+        if init:
+            acc = init[0]
+        else:
+            if not items:
+                raise Raised(TypeError("reduce() of empty iterable with no initial value"))
+            acc = items.pop(0)
+        for x in items:
+            acc = I.call(f, [acc, x], {})
+        return acc
     mods["functools"] = ModuleNS("functools", {"singledispatch": Builtin("singledispatch", singledispatch),
-                                               "wraps": Builtin("wraps", wraps)})
+                                               "wraps": Builtin("wraps", wraps), "reduce": Builtin("reduce", reduce)})
 
     # contextlib
     def suppress(*excs):
